@@ -316,7 +316,7 @@ pub fn run(run: &mut Run) {
     // failures are a recorded finding (C11-F1)
     let mut n_wide = 0usize;
     for encs in nonminimal_universes() {
-        run.custom("wider-than-necessary-big-integers", &encs, nonminimal_oracle(&encs));
+        run.custom("wider-than-necessary-big-integers", &encs, crate::engine::guarded(|| nonminimal_oracle(&encs)));
         n_wide += 1;
     }
     run.note_campaign(serde_json::json!({"name": "wider-than-necessary-big-integers", "kind": "enumerated", "evaluations": n_wide}));
